@@ -44,6 +44,8 @@ import traceback
 
 import numpy as np
 
+from vt.monitors import history
+
 from vt.core import np_rng_for, Recorder
 from vt.models import em_model as M
 
@@ -493,6 +495,13 @@ def call(F, fname, *a):
         for k, (v, b) in enumerate(zip(a, before)):
             if b is not None and not np.array_equal(v, b, equal_nan=True):
                 F.add("input-mutated", None, {"func": fname, "argument": k})
+                raise Abort()
+        _S["ncall"] = _S.get("ncall", 0) + 1
+        if _S["ncall"] % 5 == 0:
+            verdict, detail = history.reuse_check(getattr(_S["em"], fname), a)
+            _S["hist_" + verdict] = _S.get("hist_" + verdict, 0) + 1
+            if verdict == "stale":
+                F.add("stale-state", None, dict(detail, func=fname))
                 raise Abort()
         return out
     except Breach as b:
@@ -1024,6 +1033,9 @@ def run_shard(spec, rec):
     ctx = Ctx(rec, spec)
     rng = np_rng_for(spec["seed"], "c08-" + spec["kind"], spec["shard"])
     {"planck": run_planck, "conv": run_conv, "optics": run_optics}[spec["kind"]](ctx, rng, int(spec["n"]))
+    for k in ("ok", "n/a", "stale"):
+        if _S.get("hist_" + k):
+            rec.count("history.reuse_" + k.replace("/", ""), _S.pop("hist_" + k))
 
 
 def replay(case, rec):
